@@ -99,6 +99,29 @@ def h_schema(d, schema, sa, sb, sc, sd, lb, lf):
     return _check(x, y)
 
 
+def h_schema_deep(d, schema, sb):
+    """the consumed argument B is a sub-category of 3-4 leaves (an argument that is itself a functor); every leaf of B carries a
+    symbolic feature on both sides, the rest none: clashes at any leaf of B must block the rule"""
+    from depccg.cat import Functor
+    nb = nleaves(sb)
+
+    def mk(name, shape, mode):
+        # slashes inside B are fixed (the same on both sides): the subject here is the feature comparison at every leaf of B
+        return Builder(d, name, lb=1, lf=1, feat='mixed', full=set(), fmodes=[mode] * nleaves(shape), smodes=['\\', '/', '\\'][:max(0, nleaves(shape) - 1)]).build(shape)
+    A, B1, B2, C = mk('A', 'a', 'n'), mk('B1', sb, 'u'), mk('B2', sb, 'u'), mk('C', 'a', 'n')
+    if schema == 'fa':
+        x, y = Functor(A, '/', B1), B2
+    elif schema == 'ba':
+        x, y = B1, Functor(A, '\\', B2)
+    elif schema == 'fc':
+        x, y = Functor(A, '/', B1), Functor(B2, '/', C)
+    elif schema == 'bx':
+        x, y = Functor(B1, '/', C), Functor(A, '\\', B2)
+    else:
+        raise ValueError(schema)
+    return _check(x, y)
+
+
 def literal_categories():
     from depccg.cat import Category
     lits = hook.harvest_files(['depccg/grammar/en.py'])
@@ -155,6 +178,10 @@ def obligations(tier):
             if q and lx not in atoms and ly not in atoms and (lx, ly) not in (('S[dcl]', 'S[em]\\S[em]'),):
                 continue
             yield Obligation('C03.literals[%s + %s]' % (lx, ly), 'h_literals', dict(lx=lx, ly=ly), cost=len(lx) + len(ly))
+    deep = [(('a', 'a'), 'a'), ('a', ('a', 'a'))] + ([] if q else [(('a', ('a', 'a')), 'a'), ('a', (('a', 'a'), 'a')), (('a', 'a'), ('a', 'a'))])
+    for schema in ('fa', 'ba', 'fc', 'bx'):
+        for sb in deep:
+            yield Obligation('C03.schema-deep[%s,B=%s]' % (schema, shape_name(sb)), 'h_schema_deep', dict(schema=schema, sb=sb), cost=40)
     if not q:
         one, two = ['a'], shapes_upto(2)
         for schema in ('fa', 'ba', 'fc', 'bx', 'gfc', 'gbx'):
